@@ -14,6 +14,8 @@ Decided clauses (marshalling tables and wrapper forwarding):
   W6  (MEMO) every interface reads the object's *current* state: a property getter that memoises a value derived from other
       attributes is reset by every writer of those attributes (rules_memo.py); a memo of the state of other objects needs
       invalidation propagated from them
+  W7  (SUPERPOSE-SIBLING) the full-turn CylinderSegment fallback (the Cylinder interface to the same body) combines two calls of
+      the cylinder function that are built the same way (rules_sibling.py)
 Not decided: dataframe ordering, value equality between interfaces.
 """
 from __future__ import annotations
@@ -280,7 +282,7 @@ def w4(repo, res):
 
 def run(repo, res, tier):
     res.rules = ["W1 wrapper family + chain forwarding", "W2 rank table vs signatures and validators", "W3 core exports", "W4 sibling tiling", "W5 core functions leave their arguments unchanged",
-                 "W6 memoising getters are invalidated by every writer of their inputs"]
+                 "W6 memoising getters are invalidated by every writer of their inputs", "W7 superposed sibling calls agree"]
     w1(repo, res)
     w2(repo, res)
     w3(repo, res)
@@ -289,6 +291,8 @@ def run(repo, res, tier):
     origin_rules.core_mutations(repo, res, rule="W5")
     import rules_memo
     rules_memo.run(repo, res, rule="W6")
+    import rules_sibling
+    rules_sibling.run(repo, res, "W7")
     return {}
 
 
